@@ -9,6 +9,8 @@ Static clauses:
   GATE     from_bytes decodes only versions >= MIN_SUPPORTED_VERSION and TirVersion::try_from has an error arm for unknown text
   DEPTH    the recursion limit the CBOR reader is created with is a literal constant (not a function of the payload) small
            enough for the stack: nesting bombs are rejected with an error instead of overflowing the stack
+  SCRATCH  an explicit scratch buffer handed to the CBOR reader holds the longest field / variant name of the WIRE tables
+           (ciborium rejects names that do not fit; the library default of 4096 bytes does)
   PANIC    no undischarged panic site in the workspace closure of from_bytes / to_bytes / TirVersion::try_from
 Not decided: panics / aborts inside ciborium or serde on hostile bytes (dependency code); the stack actually needed per level
 of nesting (runtime quantity; DEPTH decides that the configured bound is a small constant).
